@@ -1,5 +1,6 @@
 //! Root positions for the workloads. `class` steers depth and budget choices:
-//! 0 = tiny (few pieces, searches reach great depth quickly), 1 = small, 2 = full middlegame.
+//! 0 = tiny (few pieces, searches reach great depth quickly), 1 = small, 2 = full middlegame,
+//! 3 = queen-heavy (one quiescence search can cost milliseconds of real CPU: depth 1-2 only, never re-run in sweeps).
 
 pub struct Root {
     pub name: &'static str,
@@ -40,9 +41,9 @@ pub const ROOTS: &[Root] = &[
     Root { name: "castle-only-b", fen: "r3k2r/8/8/8/8/8/8/R3K2R b KQkq - 0 1", class: 1 },
     Root { name: "castle-w-only", fen: "r3k2r/8/8/8/8/8/8/R3K2R w KQ - 0 1", class: 1 },
     Root { name: "castle-none", fen: "r3k2r/8/8/8/8/8/8/R3K2R w - - 0 1", class: 1 },
-    Root { name: "218-moves", fen: "R6R/3Q4/1Q4Q1/4Q3/2Q4Q/Q4Q2/pp1Q4/kBNN1KB1 w - - 0 1", class: 2 },
-    Root { name: "nine-queens", fen: "6k1/5ppp/8/8/8/QQQQQ3/8/QQQQK3 w - - 0 1", class: 2 },
-    Root { name: "queens-both", fen: "qqqqk3/8/8/8/8/8/8/QQQQK3 w - - 0 1", class: 2 },
+    Root { name: "218-moves", fen: "R6R/3Q4/1Q4Q1/4Q3/2Q4Q/Q4Q2/pp1Q4/kBNN1KB1 w - - 0 1", class: 3 },
+    Root { name: "nine-queens", fen: "6k1/5ppp/8/8/8/QQQQQ3/8/QQQQK3 w - - 0 1", class: 3 },
+    Root { name: "queens-both", fen: "qqqqk3/8/8/8/8/8/8/QQQQK3 w - - 0 1", class: 3 },
     Root { name: "rook-endgame", fen: "8/5pk1/6p1/8/3R4/6P1/r4P1K/8 w - - 0 1", class: 1 },
     Root { name: "minor-endgame", fen: "8/2k5/3b4/8/8/3N4/2K1P3/8 w - - 0 1", class: 0 },
     Root { name: "italian", fen: "r1bqk1nr/pppp1ppp/2n5/2b1p3/2B1P3/5N2/PPPP1PPP/RNBQK2R w KQkq - 4 4", class: 2 },
